@@ -20,7 +20,7 @@ ASSUMPTIONS = ["policy.evaluate_action outputs (float32) are inputs of the float
 
 def units(tier):
     return [{"name": n, "timeout": 2400} for n in ("ppo_discrete", "ppo_box", "a2c_reinforce", "grad_support",
-                                                     "onpolicy_ratio", "optimiser")]
+                                                     "onpolicy_ratio", "optimiser", "optimiser_iterations")]
 
 
 def _env(ctx, kind, i):
@@ -287,6 +287,13 @@ def u_onpolicy_ratio(ctx):
         kind = ["discrete", "box"][i % 2]
         env = TimeLimit(_env(ctx, kind, i), int(ctx.rng.integers(2, 6)))
         pol = _policy(ctx, env, i)
+        stateful = kind == "discrete" and (i // 2) % 2 == 1
+        if stateful:
+            # a policy with memory: the log-prob stored at step t was computed from the memory *before* the step
+            from vlib.stubs import CountingACPolicy
+
+            pol = CountingACPolicy(env, key=ctx.key(i))
+            ctx.monitor("onpolicy_buffers_of_a_stateful_policy")
         if kind == "box":
             pol = eqx.tree_at(lambda p: p.action_head.action_dist.log_std, pol,
                               replace_fn=lambda x: x * 0 + float(ctx.rng.choice([0.5, 1.0])))
@@ -307,13 +314,16 @@ def u_onpolicy_ratio(ctx):
         if kind == "box":
             a = np.asarray(flat.actions)
             oob = int(np.sum((a < env.action_space.low) | (a > env.action_space.high)))
-        ctx.case({"kind": kind, "E": E, "T": T, "oob": oob, "i": i}, nontrivial=(kind != "box" or oob > 0),
-                 cls=f"onpolicy-ratio/{kind}")
+        ctx.case({"kind": kind, "E": E, "T": T, "oob": oob, "i": i, "stateful": stateful}, nontrivial=(kind != "box" or oob > 0),
+                 cls=f"onpolicy-ratio/{kind}{'-stateful' if stateful else ''}")
         ctx.monitor("onpolicy_buffers")
         if abs(float(stats.approx_kl)) > 1e-5:
-            ctx.violation("approx-kl-nonzero-on-own-data", {"approx_kl": float(stats.approx_kl), "kind": kind, "oob": oob})
+            ctx.violation("approx-kl-nonzero-on-own-data", {"approx_kl": float(stats.approx_kl), "kind": kind, "oob": oob,
+                                                            "stateful_policy": stateful})
         if abs(float(stats.policy_loss) - want_pl) > 1e-4 + 1e-4 * abs(want_pl):
             ctx.violation("first-ratio-not-one-on-own-data", {"policy_loss": float(stats.policy_loss), "want": want_pl, "kind": kind})
+    ctx.require("onpolicy_buffers", 4)
+    ctx.require("onpolicy_buffers_of_a_stateful_policy", 2)
 
 
 def u_optimiser(ctx):
@@ -400,7 +410,124 @@ def u_optimiser(ctx):
     ctx.require("adam_first_moment_observed", 3)
 
 
+def u_optimiser_iterations(ctx):
+    """The optimiser is a stateful transformation: across real iteration() calls the state train() returns must be
+    the state the next train() receives (invariant at the train() call boundary, observed by a recording wrapper),
+    so Adam moments accumulate and a learning-rate schedule advances. A schedule that drops to 0 after k steps must
+    freeze the policy from then on; with a constant rate every real update is compared with an independent
+    optax chain whose state is carried across the iterations."""
+    import equinox as eqx
+    import jax
+    import optax
+    from lerax.algorithm import A2C, PPO, REINFORCE
+    from lerax.wrapper import TimeLimit
+    from vlib.common import inexact_leaves
+
+    def bits(tree):
+        return [np.asarray(x) for x in jax.tree.leaves(tree) if hasattr(x, "shape")]
+
+    def same(a, b):
+        la, lb = bits(a), bits(b)
+        return len(la) == len(lb) and all(x.shape == y.shape and np.array_equal(x, y, equal_nan=True) for x, y in zip(la, lb))
+
+    n = ctx.n(9, 45)
+    for i in range(n):
+        kind = ["discrete", "box"][i % 2]
+        which = ["a2c", "reinforce", "ppo"][i % 3]
+        env = TimeLimit(_env(ctx, kind, i), int(ctx.rng.integers(3, 9)))
+        pol = _policy(ctx, env, i)
+        E, T = int(ctx.rng.integers(1, 3)), int(ctx.rng.integers(4, 9))
+        mgn = float(ctx.rng.choice([0.05, 0.5, 5.0]))
+        lr0 = float(ctx.rng.choice([1e-3, 1e-2]))
+        frozen_after = int(ctx.rng.integers(1, 3)) if (i // 3) % 2 == 1 else None  # optimiser steps until the rate is 0
+        lr = lr0 if frozen_after is None else optax.piecewise_constant_schedule(lr0, {frozen_after: 0.0})
+        if which == "a2c":
+            algo = A2C(num_envs=E, num_steps=T, max_grad_norm=mgn, learning_rate=lr, normalize_advantages=False)
+            grad = lambda p, b: A2C.a2c_loss_grad(p, b, False, algo.value_loss_coefficient, algo.entropy_loss_coefficient)[1]  # noqa: E731
+            steps_per_iter = 1
+        elif which == "reinforce":
+            algo = REINFORCE(num_envs=E, num_steps=T, max_grad_norm=mgn, learning_rate=lr, normalize_advantages=False)
+            grad = lambda p, b: REINFORCE.reinforce_loss_grad(p, b, False, algo.value_loss_coefficient)[1]  # noqa: E731
+            steps_per_iter = 1
+        else:
+            ne, nb = int(ctx.rng.integers(1, 3)), int(ctx.rng.integers(1, 3))
+            algo = PPO(num_envs=E, num_steps=T, num_batches=nb, num_epochs=ne, max_grad_norm=mgn, learning_rate=lr)
+            grad, steps_per_iter = None, ne * nb
+        cls = type(algo)
+        orig_train = cls.train
+        calls = []
+
+        def spy(self, policy, opt_state, buffer, *, key, _orig=orig_train, _calls=calls):
+            out = _orig(self, policy, opt_state, buffer, key=key)
+            _calls.append((policy, opt_state, buffer, out[0], out[1]))
+            return out
+
+        cls.train = spy
+        try:
+            cb = algo.consolidate_callbacks(None)
+            st = algo.reset(env, pol, key=ctx.key(1000 + i), callback=cb)
+            n_it = 4
+            states = [st]
+            for it in range(n_it):
+                st = algo.iteration(st, key=ctx.key(2000 + 10 * i + it), callback=cb)
+                states.append(st)
+        finally:
+            cls.train = orig_train
+        if len(calls) != n_it:
+            ctx.inconc(f"train() wrapper saw {len(calls)} calls in {n_it} iterations")
+            continue
+        desc = {"algo": which, "kind": kind, "E": E, "T": T, "max_grad_norm": mgn, "lr": lr0, "frozen_after": frozen_after,
+                "steps_per_iter": steps_per_iter, "i": i}
+        ctx.case(desc, nontrivial=True, cls=f"optimiser-iterations/{which}/{'schedule' if frozen_after else 'constant'}")
+        params0 = eqx.filter(pol, eqx.is_inexact_array)
+        ref_opt = optax.chain(optax.clip_by_global_norm(mgn), optax.adam(lr0))
+        ref_state = ref_opt.init(params0)
+        steps_done = 0
+        for it, (p_in, o_in, buf, p_out, o_out) in enumerate(calls):
+            ctx.monitor("train_calls_observed")
+            prev_state, next_state = states[it], states[it + 1]
+            if not same(o_in, prev_state.opt_state) or not same(p_in, prev_state.policy):
+                ctx.violation("train-not-given-the-state-of-the-algorithm", {**desc, "iteration": it})
+            if not same(o_out, next_state.opt_state):
+                ctx.violation("optimiser-state-returned-by-train-not-kept", {**desc, "iteration": it})
+            if not same(p_out, next_state.policy):
+                ctx.violation("policy-returned-by-train-not-kept", {**desc, "iteration": it})
+            if it > 0:
+                ctx.monitor("optimiser_state_carry_checked")
+                if not same(o_in, calls[it - 1][4]):
+                    ctx.violation("optimiser-state-not-carried-to-next-iteration",
+                                  {**desc, "iteration": it, "equals_initial_state": same(o_in, calls[0][1])})
+            a, b = inexact_leaves(p_out), inexact_leaves(p_in)
+            moved = max(float(np.max(np.abs(x - y))) for x, y in zip(a, b) if x.size)
+            if frozen_after is not None:
+                if steps_done >= frozen_after:
+                    ctx.monitor("frozen_schedule_iterations_checked")
+                    if moved != 0.0:
+                        ctx.violation("policy-moves-although-the-schedule-has-reached-zero",
+                                      {**desc, "iteration": it, "optimiser_steps_before": steps_done, "moved": moved})
+            elif grad is not None:
+                g = grad(p_in, buf.flatten_axes())
+                upd, ref_state = ref_opt.update(g, ref_state, eqx.filter(p_in, eqx.is_inexact_array))
+                want = inexact_leaves(eqx.apply_updates(p_in, upd))
+                gl = inexact_leaves(g)
+                md = 0.0
+                for x, y, gg in zip(a, want, gl):
+                    ok = np.abs(gg) > 1e-6  # Adam's m/sqrt(v) is ill-conditioned where the gradient is at eps level
+                    if x.size and ok.any():
+                        md = max(md, float(np.max(np.abs(x - y)[ok])))
+                ctx.monitor("iterations_compared_with_carried_reference_optimiser")
+                if md > 1e-6 + 2e-2 * lr0:
+                    ctx.violation("parameter-update-over-iterations-not-clip-then-adam-with-carried-state",
+                                  {**desc, "iteration": it, "maxdiff": md, "moved": moved})
+            steps_done += steps_per_iter
+    ctx.require("optimiser_state_carry_checked", 9)
+    ctx.require("frozen_schedule_iterations_checked", 3)
+    ctx.require("iterations_compared_with_carried_reference_optimiser", 6)
+
+
 def run_unit(name, ctx):
+    if name == "optimiser_iterations":
+        return u_optimiser_iterations(ctx)
     if name == "ppo_discrete":
         u_ppo(ctx, "discrete")
     elif name == "ppo_box":
